@@ -379,7 +379,8 @@ def always_leaves(e, targets):
     if k == "Ret":
         return True
     if k == "Break":
-        return e.get("target") in targets
+        # `leaves_caller`: the `return Err(..)` of a helper inlined as the operand of `?` (see _inline_new_helpers)
+        return e.get("target") in targets or bool(e.get("leaves_caller"))
     if k == "Continue":
         return False
     if e.get("ty") == "!" and k in ("Call", "MethodCall"):
@@ -434,17 +435,33 @@ def conjuncts(e):
     return [e] if e is not None else []
 
 
-def reach_conds(n, anc):
+def reach_conds(n, anc, body=None):
     """boolean expressions that all hold whenever node `n` is reached, read off its ancestors: conjuncts of the test of
-    every `if` whose then-branch holds n, and of the guard of every match arm whose body holds n"""
+    every `if` whose then-branch holds n, of the guard of every match arm whose body holds n, and -- for a `Some(..)`
+    arm over an Option built with `.filter(|x| C)` -- of C (`body`: the function body, to follow a scrutinee local to
+    its initialiser)"""
     out = []
     for x in anc:
         if x.get("k") == "If" and any(y is n for y in walk(x["then"])):
             out += conjuncts(x["cond"])
         elif x.get("k") == "Match":
             for a in x.get("arms", []):
-                if a.get("guard") is not None and not a.get("guard_from_body") and any(y is n for y in walk(a["body"])):
+                if not any(y is n for y in walk(a["body"])):
+                    continue
+                if a.get("guard") is not None and not a.get("guard_from_body"):
                     out += conjuncts(a["guard"])
+                if (pat_variant(a["pat"]) or "").endswith("Option::Some") and x.get("src") != "TryDesugar":
+                    e = x["scrut"]
+                    for _ in range(3):
+                        li = let_init(body, e) if body is not None else None
+                        if li is None:
+                            break
+                        e = li["init"]
+                    for m in walk_k(e, "MethodCall"):
+                        if m.get("name") == "filter" and (callee(m) or "").startswith("core::option::Option") and m.get("args"):
+                            c = unwrap(m["args"][0])
+                            if isinstance(c, dict) and c.get("k") == "Closure":
+                                out += conjuncts(c["body"])
     return out
 
 
@@ -465,6 +482,32 @@ def virtual_arms(m):
                 g = a.get("guard")
                 ng = e["cond"] if g is None else {"k": "Binary", "op": "&&", "span": e["cond"].get("span", a.get("span")), "ty": "bool", "l": g, "r": e["cond"]}
                 out.append(dict(a, guard=ng, body=e["then"], virtual=True))
+    return out
+
+
+def with_new_callees(F, fn, depth=3):
+    """bodies to search when a rule looks for something "in fn": fn's own body plus the bodies of crate functions that
+    did not exist when the rules were written and that fn mentions as a value (`get_or_init(first_day)`) or calls
+    without having been inlined (nested fn items, helpers beyond the inlining depth)"""
+    out, seen, work = [fn.body], {fn.name}, [(fn.body, 0)]
+    helpers = {h.name: h for h in getattr(F, "helper_fns", [])}
+    newset = set(getattr(F, "new_helpers", []))
+    while work:
+        b, d = work.pop()
+        if d >= depth:
+            continue
+        for x in walk(b):
+            nm = None
+            if x.get("k") == "Path":
+                nm = path_def(x)
+            elif x.get("k") in ("Call", "MethodCall"):
+                nm = callee(x)
+            if nm and nm not in seen and nm in newset:
+                seen.add(nm)
+                g = helpers.get(nm) or F.fn(nm)
+                if g is not None:
+                    out.append(g.body)
+                    work.append((g.body, d + 1))
     return out
 
 
@@ -814,10 +857,68 @@ class Facts:
                     return {"k": "BlockExpr", "span": node["span"], "ty": node.get("ty"), "inlined": c, "id": blk_id,
                             "block": {"k": "Block", "span": node["span"], "stmts": stmts, "expr": body}}
             return node
+        inlined_somewhere = set()
+
+        def mark_tried(body):
+            # `helper(..)?`: an `Err(..)` returned by the helper leaves the caller as well
+            for t in walk_k(body, "Match"):
+                if t.get("src") != "TryDesugar":
+                    continue
+                sc = unwrap(t["scrut"])
+                a0 = sc["args"][0] if isinstance(sc, dict) and sc.get("k") == "Call" and sc.get("args") else None
+                while isinstance(a0, dict) and a0.get("k") in ("DropTemps", "Use", "Type"):
+                    a0 = a0["e"]
+                if isinstance(a0, dict) and a0.get("k") == "BlockExpr" and a0.get("inlined"):
+                    for b in walk_k(a0, "Break"):
+                        if b.get("inl_ret") and b.get("target") == a0.get("id") and isinstance(b.get("e"), dict):
+                            v = unwrap(b["e"])
+                            if isinstance(v, dict) and v.get("k") == "Call" and (callee(v) or "").endswith("Result::Err"):
+                                b["leaves_caller"] = True
+        def beta(body):
+            # `keep(&cell)` where `keep` is the closure handed to an inlined helper: the closure's body with its
+            # parameters replaced by the arguments
+            clos = {}
+            for l_ in walk_k(body, "Let"):
+                i_ = l_.get("init")
+                while isinstance(i_, dict) and i_.get("k") in ("DropTemps", "Use", "Type", "AddrOf"):
+                    i_ = i_["e"]
+                if l_.get("inl_param") and isinstance(i_, dict) and i_.get("k") == "Closure" and l_["pat"].get("k") == "Binding":
+                    clos[l_["pat"]["lid"]] = i_
+            if not clos:
+                return body
+
+            def rw(n_):
+                if isinstance(n_, list):
+                    return [rw(x) for x in n_]
+                if not isinstance(n_, dict):
+                    return n_
+                n_ = {k_: (rw(v_) if isinstance(v_, (dict, list)) and k_ not in ("span", "res", "callee") else v_) for k_, v_ in n_.items()}
+                if n_.get("k") == "Call":
+                    pl_ = path_local(n_["f"]) if isinstance(n_.get("f"), dict) else None
+                    c_ = clos.get(pl_[1]) if pl_ else None
+                    if c_ is not None and len(c_.get("params", [])) == len(n_.get("args", [])) and all(p_.get("k") == "Binding" and not p_.get("sub") for p_ in c_["params"]):
+                        b_ = c_["body"]
+                        for p_, a_ in zip(c_["params"], n_["args"]):
+                            b_ = subst_local(b_, p_["lid"], a_)
+                        return {"k": "BlockExpr", "span": n_["span"], "ty": n_.get("ty"), "beta": True, "block": {"k": "Block", "span": n_["span"], "stmts": [], "expr": b_}}
+                return n_
+            return rw(body)
         for f in self.fns:
             if f.name in new:
                 continue
-            f.raw["body"] = inline(f.raw["body"], 0, frozenset([f.name]))
+            f.raw["body"] = beta(inline(f.raw["body"], 0, frozenset([f.name])))
+            mark_tried(f.raw["body"])
+        for f in self.fns:
+            if f.name in new:
+                continue
+            for b in walk(f.raw["body"]):
+                if b.get("k") == "BlockExpr" and b.get("inlined"):
+                    inlined_somewhere.add(b["inlined"])
+        # a helper that is seen through its call sites is not also analysed on its own: its sites, loops and tables
+        # belong to the functions it was extracted from (`fn(name)` still finds it)
+        if not os.environ.get("CALAMIR_KEEP_HELPERS"):
+            self.helper_fns = [f for f in self.fns if f.name in inlined_somewhere]
+            self.fns = [f for f in self.fns if f.name not in inlined_somewhere]
 
     @staticmethod
     def _is_test(h):
@@ -949,4 +1050,12 @@ def specialise(node, lid, value, pat_keys):
                     break
             if chosen is not None and chosen.get("guard") is None:
                 return specialise(chosen["body"], lid, value, pat_keys)
-    return {k: (specialise(v, lid, value, pat_keys) if isinstance(v, (dict, list)) and k not in ("span", "res", "callee") else v) for k, v in node.items()}
+    out = {k: (specialise(v, lid, value, pat_keys) if isinstance(v, (dict, list)) and k not in ("span", "res", "callee") else v) for k, v in node.items()}
+    if out.get("k") == "If":
+        # `if matches!(ptg, A | B) { x } else { y }` after the scrutinee was resolved: keep the branch taken
+        c = lit_value(out["cond"])
+        if c is True:
+            return out["then"]
+        if c is False and out.get("els") is not None:
+            return out["els"]
+    return out
